@@ -12,18 +12,24 @@ def bounds_t(b):
     return (int(lo), int(hi))
 
 
+def bounds_rt(b):
+    """bounds with the representation of the two numbers (a packed form distinguishes numpy integers from ints)"""
+    lo, hi = b.as_tuple() if hasattr(b, "as_tuple") else tuple(b)
+    return (int(lo), int(hi), type(lo).__name__, type(hi).__name__)
+
+
 def state(obj, depth=0):
     """nested tuple describing a model / variable / array. Reads attributes with getattr-defaults."""
     if depth > 60:
         return ("<deep>",)
     if isinstance(obj, puan.variable):
-        return ("var", type(obj).__name__, obj.id, bounds_t(obj.bounds))
+        return ("var", type(obj).__name__, obj.id, bounds_rt(obj.bounds))
     if hasattr(obj, "propositions") and hasattr(obj, "variable"):
         default = getattr(obj, "default", None)
         d = None
         if default is not None:
             d = tuple((getattr(x, "id", x), bounds_t(x.bounds) if hasattr(x, "bounds") else None) for x in default)
-        return ("node", type(obj).__module__.split(".")[-1] + "." + type(obj).__name__, obj.variable.id, bounds_t(obj.variable.bounds),
+        return ("node", type(obj).__module__.split(".")[-1] + "." + type(obj).__name__, obj.variable.id, bounds_rt(obj.variable.bounds),
                 int(obj.sign), int(obj.value), bool(getattr(obj, "generated_id", False)), d, getattr(obj, "prio", None),
                 tuple(state(c, depth + 1) for c in obj.propositions))
     if isinstance(obj, numpy.ndarray):
@@ -66,6 +72,38 @@ def result(r, depth=0):
     if hasattr(r, "__iter__"):
         return ("iter", tuple(result(v, depth + 1) for v in r))
     return repr(r)[:200]
+
+
+def deep(o, depth=0, seen=None):
+    """canonical form of everything a pickle of `o` would contain (attribute names and values, with the representation of
+    numbers), independent of which string / int objects happen to be shared"""
+    if depth > 80:
+        return "<deep>"
+    if isinstance(o, (bool, str)) or o is None:
+        return o
+    if isinstance(o, int):
+        return ("int", o)
+    if isinstance(o, float):
+        return ("float", repr(o))
+    if isinstance(o, numpy.generic):
+        return (type(o).__name__, o.item() if not isinstance(o, numpy.floating) else repr(o.item()))
+    if isinstance(o, numpy.ndarray):
+        extra = deep(getattr(o, "__dict__", {}), depth + 1)
+        return ("ndarray", type(o).__name__, str(o.dtype), tuple(o.shape), tuple(numpy.asarray(o).reshape(-1).tolist()) if o.dtype != object else
+                tuple(deep(x, depth + 1) for x in o.reshape(-1).tolist()), extra)
+    if isinstance(o, (list, tuple)):
+        return (type(o).__name__,) + tuple(deep(x, depth + 1) for x in o)
+    if isinstance(o, (set, frozenset)):
+        return (type(o).__name__,) + tuple(sorted((deep(x, depth + 1) for x in o), key=repr))
+    if isinstance(o, dict):
+        return ("dict",) + tuple(sorted(((deep(k, depth + 1), deep(v, depth + 1)) for k, v in o.items()), key=repr))
+    try:
+        st = o.__getstate__()
+    except Exception:
+        st = getattr(o, "__dict__", None)
+    if st is None:
+        st = {}
+    return ("obj", type(o).__module__ + "." + type(o).__qualname__, deep(st, depth + 1))
 
 
 def h(x):
